@@ -370,7 +370,12 @@ class APIClient:
         try:
             await coro
         except (Exception, asyncio.CancelledError):  # pylint: disable=broad-except
-            if self._connection is connection:
+            if self._connection is connection and not (
+                connection is not None and connection.is_connected
+            ):
+                # A call that was refused without touching an established
+                # session (ie. finish_connection called a second time)
+                # must not make the client forget the live connection.
                 self._connection = None
             raise
 
